@@ -135,6 +135,8 @@ pub enum How {
     Par { cuts: Vec<usize>, threads: usize, order: Option<Vec<usize>> },
     /// uniform split into k parts through `ParGraph::new`
     ParUniform { parts: usize, threads: usize },
+    /// degree-balanced split through `ParGraph::with_dcf`
+    ParDcf { parts: usize, threads: usize },
 }
 
 /// Imposes a completion order on the parallel-compression workers through the
@@ -185,6 +187,13 @@ where
         }
         How::ParUniform { parts, threads } => {
             let pg = ParGraph::new(vg, *parts);
+            let pool = rayon::ThreadPoolBuilder::new().num_threads(*threads).build()?;
+            pool.install(|| b.par_comp::<E, _>(&pg))
+        }
+        How::ParDcf { parts, threads } => {
+            let dcf = vg.build_dcf();
+            let arcs = num_arcs(g) as u64;
+            let pg = ParGraph::with_dcf(vg, arcs, dcf, *parts);
             let pool = rayon::ThreadPoolBuilder::new().num_threads(*threads).build()?;
             pool.install(|| b.par_comp::<E, _>(&pg))
         }
@@ -494,7 +503,19 @@ pub fn run(seed: u64, count: usize, max_n: usize, mode: &str, out: &mut impl Wri
                 let inner = rng.chance(1, 4);
                 let cuts = gen_cuts(&mut rng, n, inner);
                 let chunks = cuts.len() - 1;
-                if rng.chance(1, 8) {
+                if rng.chance(1, 5) {
+                    // degree-balanced split: the boundaries are whatever the library derives;
+                    // they are read back from into_par_lenders for the chunk-locality check
+                    let parts = rng.range(1, 6);
+                    let vg = vec_graph(&g);
+                    let dcf = vg.build_dcf();
+                    let bounds = catch(std::panic::AssertUnwindSafe(|| {
+                        let pg = ParGraph::with_dcf(vg, num_arcs(&g) as u64, dcf, parts);
+                        let (_l, b) = (&pg).into_par_lenders();
+                        b.to_vec()
+                    })).unwrap_or_else(|_| vec![0, n]);
+                    (How::ParDcf { parts, threads: rng.range(1, 16) }, "par_dcf", bounds)
+                } else if rng.chance(1, 8) {
                     // uniform split through ParGraph::new (possibly more parts than nodes)
                     let parts = rng.range(1, 2 * n + 3);
                     let step = n.div_ceil(parts).max(0);
